@@ -11,9 +11,10 @@ from .execexpr import ExprMixin
 from .execcall import CallMixin
 from .execlib import LibMixin
 from .execstmt import StmtMixin
+from .execcomp import CompMixin
 
 
-class Executor(Base, ContMixin, ExprMixin, CallMixin, LibMixin, StmtMixin):
+class Executor(Base, ContMixin, ExprMixin, CallMixin, LibMixin, StmtMixin, CompMixin):
     def __init__(self, ctx):
         self.ctx = ctx
         self._spec_cache = {}
